@@ -11,7 +11,7 @@ Extra == {[conns |-> k, msgs |-> m, pattern |-> p, via |-> v, holdc |-> hc, hold
             k \in 1..2, m \in 2..3, p \in {"burst", "interleaved"}, v \in {"server+wt", "sctp"}, hc \in 0..1, hi \in 0..2}
 Init == s \in Extra \cup {[conns |-> k, msgs |-> m, pattern |-> p, via |-> v, holdc |-> hc, holdi |-> hi, flavour |-> fl] :
                  k \in 1..MaxConns, m \in 2..MaxMsgs, p \in {"burst", "bytes", "interleaved"}, v \in {"server", "dial", "tcp"},
-                 hc \in 0..MaxConns, hi \in 0..MaxMsgs, fl \in {"req", "ans", "mixed"}}
+                 hc \in 0..MaxConns, hi \in 0..MaxMsgs, fl \in {"req", "ans", "mixed", "dwr"}}
 Next == UNCHANGED s
 Canon == /\ s.holdc <= s.conns /\ s.holdi <= s.msgs /\ (s.holdc = 0 <=> s.holdi = 0)
 Emit == ~Canon \/ PrintT(ToJson(s))
